@@ -1030,6 +1030,11 @@ func (m *Monitors) onSendEvent(n *Node, nm *nodeMon, e *spi.Event) {
 		leader := c.Leader(msg.V)
 		prepared := nm.proposals[key] && weightOK(c, nm.prepares[key], leader)
 		quorum := weightOK(c, nm.commits[key])
+		m.Stats["C06 quorum decisions of the protocol judged"]++
+		if !prepared && !quorum && nm.proposals[key] {
+			// (the proposal is there: what is missing is weight)
+			m.violate("C06", "protocol-counted-a-set-below-quorum-weight-as-a-quorum", "node %s sent COMMIT h=%d v=%d although the senders it can hold for that pair — PREPAREs with the leader %v, COMMITs %v — stay below the quorum weight W-f of committee %v", n.Id, msg.H, msg.V, idsOf(nm.prepares[key]), idsOf(nm.commits[key]), c.Members)
+		}
 		if !prepared && !quorum {
 			m.violate("C10", "commit-without-certificate", "node %s sent COMMIT h=%d v=%d hash=%x holding neither a prepared certificate nor a commit quorum for it (proposal=%v prepares=%d commits=%d)", n.Id, msg.H, msg.V, short(msg.Hash), nm.proposals[key], len(nm.prepares[key]), len(nm.commits[key]))
 		}
@@ -1143,7 +1148,9 @@ func (m *Monitors) judgeOwnNewView(n *Node, nm *nodeMon, msg *ref.Msg) {
 		}
 	}
 	m.Stats["C07 leader proposals judged"]++
+	m.Stats["C06 quorum decisions of the protocol judged"]++
 	if !c.IsQuorum(ids) {
+		m.violate("C06", "protocol-counted-a-set-below-quorum-weight-as-a-quorum", "node %s announced view %d of height %d on the votes of %v, whose weight is below the quorum weight W-f of committee %v", n.Id, msg.V, msg.H, ids, c.Members)
 		m.violate("C07", "leader-proposed-without-quorum-of-votes", "node %s sent NEW_VIEW h=%d v=%d without authentic votes of quorum weight", n.Id, msg.H, msg.V)
 	}
 	// proposal = block of highest-view proof among the votes; fresh only if none carries a proof
@@ -1328,4 +1335,13 @@ func (m *Monitors) probeStorage(n *Node) {
 		m.w.Aborted = true
 		m.violate("C12", "storage-left-locked-by-a-recovered-panic", "node %s: after a panic that the worker recovered from, the accessors of its message storage do not return (10 s): the lock is still held, the next message that touches the storage blocks the worker for good", n.Id)
 	}
+}
+
+func idsOf(set map[string]bool) []string {
+	var l []string
+	for id := range set {
+		l = append(l, id)
+	}
+	sort.Strings(l)
+	return l
 }
